@@ -30,6 +30,11 @@ CHECKS = {
          "For 100 (quick) / 2052 (thorough) parameter tuples the real dump is written and EVERY strict byte prefix of the file (the possible states after a crash during the dump) is reloaded with the real reload_json: the outcome must be Err - a panic or an Ok is a violation; missing file, missing directory, a directory in place of the file and a dump over an existing longer dump are separate cases. Round trip is checked on the cross product of an 18-float x 9-integer boundary alphabet plus 2e4 / 1e6 seeded bit-pattern tuples: m,q exact, a,b exact when <=15 significant digits else within 1 ulp.",
          "a crash leaves a prefix of the single buffered write; parameter space beyond the alphabet is sampled by bit patterns, not exhausted",
          "DESIGN.md §4 C20"),
+ "C18": ("exploration",
+         "exhaustive input-domain enumeration under memory-error detectors (sub-process abort, valgrind, miri)",
+         "All values of u8/u16/i16 (and all 2^32 of u32/i32 in the thorough tier), a 2e5-pattern alphabet of u64, 627 strings, and every Vec<u8|u16|u32> of length 0..5 (6) over a 5-value boundary alphabet plus lengths 1000 and 1e6 are passed to the real get_sig and compared with an independent native-endian concatenation. Vector types run in supervised sub-processes so that a glibc abort is an observation; the small sweep is repeated under valgrind memcheck (both tiers) and under cargo miri (thorough) so that reads/frees of unowned memory fail loudly. ProbMinHash3aSha is driven with keys of every Sig type in all 24 insertion orders.",
+         "memory safety is decided by the detectors on the explored values only; u64/String/Vec domains are boundary alphabets",
+         "DESIGN.md §4 C18"),
 }
 PENDING_REASON = "check not built yet in this revision (see DESIGN.md §4 for the planned model-checking approach)"
 
